@@ -158,6 +158,26 @@ fn g_lossless(t: &mut Tape) -> Scenario {
     gen_scenario(t, &p)
 }
 
+/// Cells the builder accepts although the command line rejects them: Paris / Dublin in
+/// unprivileged mode (the non-raw UDP path ignores the strategy's probe flags).
+fn g_unpriv_multipath(t: &mut Tape) -> Scenario {
+    use crate::gen::Cell;
+    use crate::scenario::{Proto, Strat};
+    let mut p = Profile::base();
+    p.delivery_faults = false;
+    p.late = false;
+    p.stalls = false;
+    p.hop_kinds = false;
+    p.target_kinds = false;
+    p.max_rounds = 3;
+    p.max_path = 8;
+    p.cells = [Strat::Paris, Strat::Dublin]
+        .into_iter()
+        .flat_map(|strat| (1..=3).map(move |ports| Cell { proto: Proto::Udp, strat, ports, unprivileged: true }))
+        .collect();
+    gen_scenario(t, &p)
+}
+
 fn g_foreign(t: &mut Tape) -> Scenario {
     let mut p = Profile::base();
     p.inject = true;
@@ -659,6 +679,7 @@ pub fn registry() -> Vec<PropertyCheck> {
             families: vec![
                 Family { name: "lossless", gen: g_lossless, oracle: oracle::c02, opts: opts_light(), quick_runs: 120_000, thorough_runs: 4_000_000, must_reach: &["reach.extension_emitted", "fault.tos_rewrite"], enum_dims: None },
                 Family { name: "foreign", gen: g_foreign, oracle: oracle::c02, opts: opts_light(), quick_runs: 80_000, thorough_runs: 3_000_000, must_reach: &["handed.Foreign"], enum_dims: None },
+                Family { name: "unprivileged-paris-dublin", gen: g_unpriv_multipath, oracle: oracle::c02, opts: opts_light(), quick_runs: 5_000, thorough_runs: 100_000, must_reach: &[], enum_dims: None },
                 Family { name: "sequence-sweep", gen: g_sweep_sample, oracle: oracle::c02, opts: opts_light(), quick_runs: 1_500, thorough_runs: 20_000, must_reach: &[], enum_dims: None },
                 Family { name: "sequence-sweep-full", gen: g_sweep_full, oracle: oracle::c02, opts: opts_light(), quick_runs: 0, thorough_runs: 320, must_reach: &[], enum_dims: None },
             ],
